@@ -568,46 +568,38 @@ func builderFlow(c *Ctx, g *load.G) {
 		b, x := recvName(fd), firstParam(fd)
 		var bad []string
 		nDef := 0
-		for _, p := range enumPaths(fd.Body) {
-			if eg := extraGuards(p, x+"==nil", x+"!=nil", x+".FuncIx>0", x+".FuncIx!=0", x+".FuncIx==0"); len(eg) > 0 {
-				bad = append(bad, "the definition depends on `"+strings.Join(eg, "`, `")+"`")
+		wantCall := b + ".writeFunc(" + x + ".FuncIx," + x + ".Code," + cw.call + "," + cw.fun + ")"
+		for _, p := range c.builderNorm().normPaths(fd) {
+			if of := p.otherFacts(x+"==nil", x+".FuncIx>0", x+".FuncIx!=0", x+"!=nil&&"+x+".FuncIx>0", x+"!=nil&&"+x+".FuncIx!=0"); len(of) > 0 {
+				bad = append(bad, "the definition depends on `"+strings.Join(of, "`, `")+"`")
 				continue
 			}
-			isNil := p.has("+", x+"==nil") || p.has("-", x+"!=nil")
-			notNil := p.has("-", x+"==nil") || p.has("+", x+"!=nil")
-			pending := p.has("+", x+".FuncIx>0") || p.has("+", x+".FuncIx!=0") || p.has("-", x+".FuncIx==0")
-			done := p.has("-", x+".FuncIx>0") || p.has("-", x+".FuncIx!=0") || p.has("+", x+".FuncIx==0")
-			wantCall := b + ".writeFunc(" + x + ".FuncIx," + x + ".Code," + cw.call + "," + cw.fun + ")"
-			iw := p.index("call", wantCall, 0)
-			switch {
-			case isNil:
-				for _, e := range p {
-					if e.Kind == "call" || e.Kind == "assign" {
-						bad = append(bad, where(e.Node)+": uses the node on the path where it is nil")
-					}
+			iw := p.evIndex("call", 0, func(t string) bool { return strings.HasPrefix(t, b+".writeFunc(") })
+			present := p.holds(x + "!=nil")
+			pending := p.holds(x+".FuncIx>0") || p.holds(x+".FuncIx!=0")
+			if iw >= 0 {
+				if p[iw].Text != wantCall {
+					bad = append(bad, where(p[iw].Node)+": writeFunc is called as "+abbreviate(p[iw].Text)+", expected "+wantCall)
 				}
-			case pending && notNil || pending && !isNil:
-				if iw < 0 {
-					bad = append(bad, "a node whose method is still pending (FuncIx != 0) does not get `"+wantCall+"`: the grammar literal references a method that is never defined")
-				} else {
-					nDef++
-					if p.index("assign", x+".FuncIx=0", iw) < 0 {
-						bad = append(bad, "FuncIx is not cleared after the method was written: a node reached twice (shared by the optimizer) defines the method twice")
-					}
+				if !present || !pending {
+					bad = append(bad, "the method is written on a path that does not establish a present node with a pending method ["+strings.Join(p.facts(), " ")+"]")
 				}
-			case done:
-				if iw >= 0 {
-					bad = append(bad, "the method is written although FuncIx is 0")
+				nDef++
+				if p.evIndex("set", iw, func(t string) bool { return t == x+".FuncIx=0" }) < 0 {
+					bad = append(bad, "FuncIx is not cleared after the method was written: a node reached twice (shared by the optimizer) defines the method twice")
 				}
-			default:
-				// no FuncIx test on a non-nil path
-				if iw < 0 {
-					bad = append(bad, "non-nil node, no FuncIx test and no writeFunc call on path "+abbreviate(p.String()))
-				}
+				continue
+			}
+			// nothing is written: the node must be absent or its method already written
+			if present && pending {
+				bad = append(bad, "a node whose method is still pending (FuncIx != 0) does not get `"+wantCall+"`: the grammar literal references a method that is never defined")
+			}
+			if !(p.holds(x+"==nil") || p.holds(x+".FuncIx<=0") || p.holds(x+".FuncIx==0") || p.refutes(x+"!=nil&&"+x+".FuncIx>0") || p.refutes(x+"!=nil&&"+x+".FuncIx!=0")) {
+				bad = append(bad, "a path writes nothing without establishing that there is nothing to write ["+strings.Join(p.facts(), " ")+"]")
 			}
 			for _, e := range p {
-				if e.Kind == "call" && strings.HasPrefix(e.Text, b+".writeFunc(") && e.Text != wantCall {
-					bad = append(bad, where(e.Node)+": writeFunc is called as "+abbreviate(e.Text)+", expected "+wantCall)
+				if p.holds(x+"==nil") && (e.Kind == "call" || e.Kind == "set") {
+					bad = append(bad, where(e.Node)+": uses the node on the path where it is nil")
 				}
 			}
 		}
@@ -889,119 +881,21 @@ func builderFieldWriters(c *Ctx, g *load.G) {
 	r.MinRule("C04-h", 10)
 }
 
-// builderWriteFunc (C04-j): parameter list and argument list of an emitted method.
+// builderWriteFunc (C04-j): parameter list and argument list of an emitted method (see writeFuncSemantics).
 func builderWriteFunc(c *Ctx, g *load.G) {
 	r := c.R
-	bp := g.Pkg("builder")
-	fd := load.FuncDecl(bp, "builder", "writeFunc")
+	fd := load.FuncDecl(g.Pkg("builder"), "builder", "writeFunc")
 	if fd == nil {
 		r.Fatal("anchor builder.writeFunc not found")
 		return
 	}
-	b := recvName(fd)
+	wfp := writeFuncSemantics(c)
 	var bad []string
-	// the index of the innermost label scope
-	ixName := ""
-	ast.Inspect(fd.Body, func(n ast.Node) bool {
-		if as, ok := n.(*ast.AssignStmt); ok && len(as.Lhs) == 1 && len(as.Rhs) == 1 && nospace(as.Rhs[0]) == "len("+b+".argsStack)-1" {
-			ixName = nospace(as.Lhs[0])
-		}
-		return true
-	})
-	if ixName == "" {
-		bad = append(bad, "no local holding len("+b+".argsStack)-1 (the innermost label scope)")
+	for _, k := range []string{"pair", "name", "same-list", "lists"} {
+		bad = append(bad, wfp[k]...)
 	}
-	nLoops := 0
-	ast.Inspect(fd.Body, func(n ast.Node) bool {
-		rs, ok := n.(*ast.RangeStmt)
-		if !ok {
-			return true
-		}
-		if nospace(rs.X) != b+".argsStack["+ixName+"]" {
-			bad = append(bad, g.Where(rs.Pos())+": ranges over "+nospace(rs.X)+", not the innermost label scope")
-			return true
-		}
-		nLoops++
-		for _, gd := range guardsOf(fd.Body, rs.Pos()) {
-			if gd != ixName+">=0" && gd != ixName+">-1" {
-				bad = append(bad, g.Where(rs.Pos())+": the label loop runs only under `"+gd+"`: labels of some scope are left out of the signature or the call")
-			}
-		}
-		if rs.Key == nil || rs.Value == nil {
-			bad = append(bad, g.Where(rs.Pos())+": label loop without index/value")
-			return true
-		}
-		k, v := nospace(rs.Key), nospace(rs.Value)
-		sep, elem := 0, 0
-		for _, ce := range callsIn(rs.Body) {
-			gs := guardsOf(rs.Body, ce.Pos())
-			switch {
-			case callSel(ce) == "WriteString" && len(ce.Args) == 1 && nospace(ce.Args[0]) == `","`:
-				sep++
-				if len(gs) != 1 || (gs[0] != k+">0" && gs[0] != k+"!=0") {
-					bad = append(bad, g.Where(ce.Pos())+": separator written under ["+strings.Join(gs, ";")+"], expected exactly `"+k+" > 0`: a leading or missing comma makes the emitted method not compile")
-				}
-			case callSel(ce) == "WriteString" && len(ce.Args) == 1 && nospace(ce.Args[0]) == v,
-				callName(ce) == "fmt.Fprintf" && len(ce.Args) == 3 && nospace(ce.Args[2]) == v && strings.Contains(nospace(ce.Args[1]), "stack[%q]"):
-				elem++
-				if len(gs) != 0 {
-					bad = append(bad, g.Where(ce.Pos())+": label written only under ["+strings.Join(gs, ";")+"]")
-				}
-			}
-		}
-		if sep != 1 || elem != 1 {
-			bad = append(bad, g.Where(rs.Pos())+fmt.Sprintf(": the loop writes %d separators and %d elements per label, expected 1 and 1", sep, elem))
-		}
-		return true
-	})
-	if nLoops != 2 {
-		bad = append(bad, fmt.Sprintf("%d loops over the innermost label scope, expected 2 (signature and call)", nLoops))
-	}
-	// " any" suffix of a non-empty parameter list; reset between the two lists; nil guard
-	anyOK, resetOK := false, false
-	var emitPos []token.Pos
-	for _, ce := range callsIn(fd.Body) {
-		gs := guardsOf(fd.Body, ce.Pos())
-		switch {
-		case callSel(ce) == "WriteString" && len(ce.Args) == 1 && nospace(ce.Args[0]) == `"any"`:
-			anyOK = len(gs) == 1 && (gs[0] == "args.Len()>0" || gs[0] == "args.Len()!=0")
-		case callSel(ce) == "Reset" && len(gs) == 0:
-			resetOK = true
-			emitPos = append(emitPos, -ce.Pos())
-		case callName(ce) == b+".writelnf":
-			emitPos = append(emitPos, ce.Pos())
-			if len(gs) != 0 {
-				bad = append(bad, g.Where(ce.Pos())+": emission under ["+strings.Join(gs, ";")+"]")
-			}
-		}
-	}
-	if !anyOK {
-		bad = append(bad, `the " any" type suffix is not written exactly when the parameter list is non-empty`)
-	}
-	if !(resetOK && len(emitPos) == 3 && emitPos[0] > 0 && emitPos[1] < 0 && emitPos[2] > 0) {
-		bad = append(bad, "the argument buffer is not reset between the method definition and the call stub")
-	}
-	paths := enumPaths(fd.Body)
-	code := ""
-	if len(fd.Type.Params.List) >= 2 && len(fd.Type.Params.List[1].Names) > 0 {
-		code = fd.Type.Params.List[1].Names[0].Name
-	}
-	for _, p := range paths {
-		isNil := p.has("+", code+"==nil")
-		emits := 0
-		for _, e := range p {
-			if e.Kind == "call" && strings.HasPrefix(e.Text, b+".writelnf(") {
-				emits++
-			}
-		}
-		if isNil && emits > 0 || !isNil && emits != 2 {
-			bad = append(bad, fmt.Sprintf("a path with %s==nil %t emits %d pieces (expected 0 for nil, 2 otherwise)", code, isNil, emits))
-			break
-		}
-	}
-	sort.Strings(bad)
 	r.Check(len(bad) == 0, "C04-j", "G.builder.writeFunc:parameter-and-argument-lists", "", g.Where(fd.Pos()),
-		"both lists enumerate every label of the innermost scope, comma-separated, ` any` suffix iff non-empty, buffer reset in between, definition and stub both emitted", strings.Join(uniq(bad), "; "))
+		"both lists enumerate every label of the innermost scope, comma-separated, ` any` suffix iff non-empty, definition and stub both emitted", strings.Join(uniq(bad), "; "))
 }
 
 // builderExprCode (C04-k): per kind, writeExprCode visits every Expression child, calls the code writer of a code kind
@@ -1035,28 +929,23 @@ func builderExprCode(c *Ctx, g *load.G) {
 			r.Bad("C04-k", construct, "", g.Where(fd.Pos()), "no case for *"+k.Name+": the methods of code blocks inside it are never defined")
 			continue
 		}
-		v := si.Var
+		v := firstParam(fd) // the switched value (the variable bound by the type switch is rendered as it)
 		var bad []string
-		paths := enumPaths(&ast.BlockStmt{List: cc.Body})
+		paths := c.builderNorm().normBlock(fd, cc.Body)
 		for _, p := range paths {
-			if gs := p.guards(); len(gs) > 0 {
+			if gs := p.facts(); len(gs) > 0 {
 				bad = append(bad, "the case is conditional on "+strings.Join(gs, " "))
 			}
 			for _, ch := range k.Children {
-				found := false
-				if p.has("call", b+".writeExprCode("+v+"."+ch+")") {
-					found = true
-				}
-				for i, e := range p {
-					if e.Kind == "loop" && strings.HasSuffix(e.Text, ":=range "+v+"."+ch) {
-						lv := strings.TrimPrefix(strings.SplitN(e.Text, ":=", 2)[0], "_,")
-						for _, e2 := range p[i:] {
-							if e2.Kind == "endloop" {
-								break
-							}
-							if e2.Kind == "call" && e2.Text == b+".writeExprCode("+lv+")" {
-								found = true
-							}
+				found := p.hasCall(b + ".writeExprCode(" + v + "." + ch + ")")
+				if lo, hi := loopSpan(p, "range "+v+"."+ch); lo >= 0 {
+					for i := lo + 1; i < hi && i < len(p); i++ {
+						if p[i].Kind == "call" && strings.HasPrefix(p[i].Text, b+".writeExprCode("+v+"."+ch+"[#") {
+							found = true
+						}
+						if p[i].Kind == "branch" {
+							found = false
+							break
 						}
 					}
 				}
@@ -1064,12 +953,12 @@ func builderExprCode(c *Ctx, g *load.G) {
 					bad = append(bad, "child "+ch+" is not visited: methods of code blocks inside it are referenced by the grammar literal but never defined")
 				}
 			}
-			if cw != "" && !p.has("call", b+"."+cw+"("+v+")") {
+			if cw != "" && !p.hasCall(b+"."+cw+"("+v+")") {
 				bad = append(bad, cw+"("+v+") is not called: the method of this code block is never defined")
 			}
 			if k.Name == "LabeledExpr" {
-				ia := p.index("call", b+".addArg("+v+".Label)", 0)
-				ip := p.index("call", b+".pushArgsSet()", 0)
+				ia := p.evIndex("call", 0, func(t string) bool { return t == b+".addArg("+v+".Label)" })
+				ip := p.evIndex("call", 0, func(t string) bool { return t == b+".pushArgsSet()" })
 				if ia < 0 || (ip >= 0 && ia > ip) {
 					bad = append(bad, "the label is not registered (addArg("+v+".Label)) in the enclosing scope before the operand's scope opens: code blocks do not receive it")
 				}
@@ -1114,7 +1003,7 @@ func builderStaticTail(c *Ctx, g *load.G) {
 		line := nospace(rs.Value)
 		for _, ce := range callsIn(rs.Body) {
 			if callSel(ce) == "WriteString" && len(ce.Args) == 1 && strings.HasPrefix(nospace(ce.Args[0]), line) {
-				gs := guardsOf(rs.Body, ce.Pos())
+				gs := factsAt(rs.Body, ce.Pos())
 				if len(gs) == 1 && gs[0] == "!"+reVar+".MatchString("+line+")" {
 					keptOK = true
 				} else {
